@@ -70,7 +70,7 @@ def analyse(tu, fname, max_depth=12):
             if rid in subst:
                 return subst[rid]
             if rid in partner:
-                return label[partner[rid] if swap else rid]
+                return label[partner[rid] if (swap is True or (swap and rid in swap)) else rid]
             if rid in decls and decls[rid][1] is not None and \
                     cfacts.strip(decls[rid][1]).get("kind") != "IntegerLiteral":      # loop indices stay symbolic
                 return canon(decls[rid][1], swap, subst, depth + 1)
@@ -125,11 +125,68 @@ def analyse(tu, fname, max_depth=12):
 
     effects = []
 
+    def is_skip(stmt):
+        """then-branch that only leaves the iteration: continue / break / return (possibly in braces)"""
+        k = stmt.get("kind")
+        if k in ("ContinueStmt", "BreakStmt", "ReturnStmt"):
+            return True
+        if k == "CompoundStmt":
+            ks = cfacts.kids(stmt)
+            return bool(ks) and all(is_skip(x) for x in ks)
+        return False
+
+    def own_stores(stmt):
+        """stores / helper calls of one simple statement (no nested control flow inside)"""
+        return stores(stmt), helper_calls(stmt)
+
+    def walk_stmts(stmt, guards, out):
+        k = stmt.get("kind")
+        ks = cfacts.kids(stmt)
+        if k == "CompoundStmt":
+            g = list(guards)
+            for x in ks:
+                if x.get("kind") == "IfStmt":
+                    xs = cfacts.kids(x)
+                    if len(xs) >= 2 and is_skip(xs[1]) and len(xs) == 2:
+                        g = g + [("not", xs[0])]        # the rest of the block runs only if the test fails
+                        continue
+                walk_stmts(x, g, out)
+            return
+        if k == "IfStmt":
+            walk_stmts(ks[1], guards + [("if", ks[0])], out)
+            if len(ks) > 2:
+                walk_stmts(ks[2], guards + [("not", ks[0])], out)
+            return
+        if k in ("ForStmt", "WhileStmt", "DoStmt"):
+            walk_stmts(ks[-1], guards, out)
+            return
+        if k in ("DeclStmt", "NullStmt") or k is None:
+            return
+        if k.startswith("OMP") or k in ("CapturedStmt", "CapturedDecl", "AttributedStmt", "LabelStmt"):
+            for x in ks:
+                walk_stmts(x, guards, out)
+            return
+        st_, hc_ = own_stores(stmt)
+        for st in st_:
+            out.append(("store", st, guards))
+        for call, name, args in hc_:
+            out.append(("call", (call, name, args), guards))
+
+    plan_ = []
+    walk_stmts(body, [], plan_)
+
+    def gcanon(guards, swap):
+        return " && ".join(sorted("%s(%s)" % (pol, canon(c, swap, {})) for pol, c in guards))
+
     def add_effects(swap):
         res = []
-        for st in stores(body):
-            res.append((st, canon(st, swap, {})))
-        for call, name, args in helper_calls(body):
+        for kind, item, guards in plan_:
+            g = gcanon(guards, swap)
+            pre = ("[" + g + "] ") if g else ""
+            if kind == "store":
+                res.append((item, pre + canon(item, swap, {})))
+                continue
+            call, name, args = item
             hp = tu.params(name)
             if len(hp) != len(args):
                 raise AnalysisError("%s: call of %s with %d arguments for %d parameters" % (fname, name, len(args), len(hp)))
@@ -147,7 +204,7 @@ def analyse(tu, fname, max_depth=12):
                 raise AnalysisError("%s: helper %s calls further helpers (not inlined)" % (fname, name))
             for st in inner:
                 # helper locals keep their names (loop indices); parameters are substituted
-                res.append((call, canon_helper(st, sub, hdecl)))
+                res.append((call, pre + canon_helper(st, sub, hdecl)))
         return res
 
     def canon_helper(e, sub, hdecl, depth=0):
@@ -180,16 +237,54 @@ def analyse(tu, fname, max_depth=12):
             return "%s(%s)" % (name, ", ".join(canon_helper(a, sub, hdecl, depth + 1) for a in ks[1:]))
         return " ".join(tu.text_of(e).split())
 
+    # which pairs are only summed over (their addresses never involve an index that selects the output slot)?
+    out_vars = set()
+    for kind, item, guards in plan_:
+        if kind == "store":
+            lhs = cfacts.strip(cfacts.kids(item)[0])
+            if lhs.get("kind") == "ArraySubscriptExpr":
+                b_, i_ = cfacts.kids(lhs)
+                bb_ = cfacts.strip(b_)
+                if bb_.get("kind") == "DeclRefExpr" and bb_["referencedDecl"]["id"] in params:
+                    for x in cfacts.walk(i_):
+                        if x.get("kind") == "DeclRefExpr":
+                            out_vars.add(x["referencedDecl"]["id"])
+
+    def mentions(e, depth=0):
+        ids = set()
+        for x in cfacts.walk(e):
+            if x.get("kind") == "DeclRefExpr":
+                rid = x["referencedDecl"]["id"]
+                ids.add(rid)
+                if rid in decls and decls[rid][1] is not None and depth < 6 and rid not in partner:
+                    ids |= mentions(decls[rid][1], depth + 1)
+        return ids
+    coupled = set()
+    for x in cfacts.walk(body):
+        if x.get("kind") == "BinaryOperator" and x.get("opcode") == "+":
+            ks = [cfacts.strip(c) for c in cfacts.kids(x)]
+            for p_, o_ in ((ks[0], ks[1]), (ks[1], ks[0])):
+                if p_.get("kind") == "DeclRefExpr" and p_["referencedDecl"]["id"] in partner:
+                    if mentions(o_) & out_vars:
+                        coupled.add(p_["referencedDecl"]["id"])
+                        coupled.add(partner[p_["referencedDecl"]["id"]])
+    summed = set(partner) - coupled
+    exchanges = [("all channel pairs", True)]
+    if summed and coupled:
+        exchanges.append(("the summed (reference) pair(s) %s only" % sorted(
+            {label[i].split("#")[0] for i in summed}), frozenset(summed)))
     plain = add_effects(False)
-    swapped = add_effects(True)
-    have = {}
-    for node, c in plain:
-        have[c] = have.get(c, 0) + 1
     unmatched = []
-    for (node, c), (_, img) in zip(plain, swapped):
-        effects.append((tu.line_of(node), " ".join(tu.text_of(node).split()), c, img))
-        if have.get(img, 0) > 0:
-            have[img] -= 1
-        else:
-            unmatched.append((tu.line_of(node), " ".join(tu.text_of(node).split()), img))
-    return {"pairs": pairs, "effects": effects, "unmatched": unmatched}
+    for what, swap in exchanges:
+        swapped = add_effects(swap)
+        have = {}
+        for node, c in plain:
+            have[c] = have.get(c, 0) + 1
+        for (node, c), (_, img) in zip(plain, swapped):
+            if swap is True:
+                effects.append((tu.line_of(node), " ".join(tu.text_of(node).split()), c, img))
+            if have.get(img, 0) > 0:
+                have[img] -= 1
+            else:
+                unmatched.append((tu.line_of(node), " ".join(tu.text_of(node).split()), "under exchange of %s: %s" % (what, img)))
+    return {"pairs": pairs, "effects": effects, "unmatched": unmatched, "exchanges": [w for w, _ in exchanges]}
